@@ -5,7 +5,7 @@
 From Coq Require Import ZArith String List Bool Arith Lia.
 From NV Require Import Common.Outcome Lang.FreezeLang Lang.Freeze Lang.FreezeSpec Lang.Freeze_proofs
   Lang.FreezeRel Lang.FreezeSim_store Lang.FreezeSim_rel Lang.FreezeSim_ops Lang.FreezeSim_scope
-  Lang.FreezeSim_lists Lang.FreezeSim Lang.FreezeDbc Lang.FreezeDbc_proofs.
+  Lang.FreezeSim_lists Lang.FreezeSim Lang.FreezeDbc Lang.FreezeDbc_proofs Lang.FreezeProt_proofs.
 Import ListNotations.
 Open Scope string_scope.
 Open Scope list_scope.
@@ -54,6 +54,30 @@ Section Pres.
     rewrite HE in HP. destruct (eval (prot0 n0 (rn B e)) fuel st' cur0 e') as [st1' r'].
     destruct HP as [[A|A]|(_ & _ & S1 & _ & RR)]; cbn [fst snd] in *; try congruence.
     exists st1', r'. split; [reflexivity|]. split; [exact S1|]. split; [destruct S1; auto|exact RR].
+  Qed.
+
+  (* the same about the plain evaluator: when the protected original run does not trap it is the
+     plain run, and so is the frozen run *)
+  Theorem freeze_preserves_plain : forall B e e' B' st st' fuel st1 r,
+    freeze look B e = Ok (e', B') ->
+    declared_before_captured B e ->
+    srel n0 cur0 look (rn B e) st st' ->
+    agree n0 cur0 look (rn B e) (frames st) ->
+    eval (prot0 n0 (rn B e)) fuel st cur0 e = (st1, r) ->
+    r <> OutOfFuel -> r <> Sig STrap ->
+    eval noprot fuel st cur0 e = (st1, r) /\
+    exists st1' r',
+      eval noprot fuel st' cur0 e' = (st1', r') /\
+      srel n0 cur0 look (rn B e) st1 st1' /\
+      out st1 = out st1' /\
+      rres n0 cur0 look (rn B e) (vrel n0 cur0 look (rn B e)) (frames st1) r r'.
+  Proof.
+    intros B e e' B' st st' fuel st1 r HF HD S Ag HE N1 N2.
+    split; [eapply eval_prot_noprot; eauto|].
+    destruct (freeze_preserves B e e' B' st st' fuel st1 r HF HD S Ag HE N1 N2) as (st1' & r' & E' & S1 & O1 & RR).
+    exists st1', r'. split; [|auto].
+    eapply eval_prot_noprot; eauto.
+    intro C. subst r'. destruct r as [v|[v| |]|]; cbn in RR; auto.
   Qed.
 
   (* using the frozen value later: related functions applied to related arguments in related stores *)
